@@ -523,7 +523,7 @@ def rule_read_sig_insertion_index(check, rule):
     fi = repo.func(SUP + ':read_sig')
     check.analysed(fi)
     loop = None
-    for n in fi.node.body:
+    for n in fi.main_body:
         if isinstance(n, ast.For):
             loop = n
     key = 'read_sig|insertion-index'
